@@ -143,7 +143,7 @@ PROPS["C20"] = dict(
     level_note=("cubic tables and table sizes regenerated from Geoid.cpp each run; hand-written model of height / rawval / CacheArea; iostream header parsing "
                 "is modelled only structurally (the harness composes the header from fields)"),
     technique="Lean 4 proof by induction over operation histories (refinement to a state-free spec) + exact model/implementation correspondence",
-    assumptions=["floating-point location stays inside the raster: checked per query, not proved (needs monotonicity of round53)"],
+    assumptions=["the harness composes PGM headers from fields; iostream tokenisation is not modelled"],
 )
 
 PROPS["C12"] = dict(
